@@ -48,8 +48,12 @@ def flatten(o):
         if "ev" in st:
             ev.append({"t": "ev", "h": h, "ev": st["ev"], "node": st.get("node", -1)})
             continue
-        ev.append({"t": "op", "h": h, "op": st["op"], "node": st.get("node", -1), "pk": st.get("pk", 0)})
+        cach = st["op"].startswith("c")
+        ev.append({"t": "op", "h": h, "op": st["op"][1:] if cach else st["op"], "hd": "c" if cach else "p", "node": st.get("node", -1), "pk": st.get("pk", 0)})
         for f in s["frames"]:
+            if "midev" in f:        # a server event between two pages
+                ev.append({"t": "ev", "h": h, "ev": f["midev"]["ev"], "node": f["midev"].get("node", -1)})
+                continue
             ev.append(frame(f))
         r = s["result"]
         ev.append({"t": "result", "h": h, "ok": r.get("ok", 0), "kind": r.get("kind", ""), "cols": r.get("cols", []),
@@ -97,6 +101,26 @@ def run(tier):
     keep = 2500 if tier == "quick" else 20000
     if total > keep:          # the enumeration is TLC's; a seeded sample of it is executed
         hists = rng.sample(hists, keep)
+    # second population: both handles of the statement (Session::prepare's and the CachingSession's) and server events between pages
+    cfg2 = os.path.join(wd, "MC_PreparedHist2.cfg")
+    with open(cfg2, "w") as f:
+        f.write("SPECIFICATION Spec\nCONSTANTS MaxSteps = 7\nMaxChanges = 4\nINVARIANTS Emit\nCHECK_DEADLOCK FALSE\n")
+    r2 = tlc("MC_PreparedHist2", cfg2, workers=4, timeout=1800, simulate=8000 if tier == "quick" else 60000, depth=10, tlc_seed=seed())
+    if r2.error:
+        raise ToolError("MC_PreparedHist2 failed: %s" % r2.out[-600:])
+    h2 = sorted({json.dumps(h, sort_keys=True) for h in r2.json_prints("HIST")})
+    h2 = [json.loads(x) for x in h2]
+    keep2 = 2000 if tier == "quick" else 15000
+    if len(h2) < min(keep2, 1500):
+        raise ToolError("too few histories in the second population: %d" % len(h2))
+    total2 = len(h2)
+    if len(h2) > keep2:
+        h2 = rng.sample(h2, keep2)
+    nmid = sum(1 for h in h2 for s in h["steps"] if "mid" in s)
+    ncach = sum(1 for h in h2 for s in h["steps"] if s.get("op", "").startswith("c"))
+    if nmid < 200 or ncach < 500:
+        raise ToolError("second population is thin: %d mid-page events, %d cached executions" % (nmid, ncach))
+    hists = hists + h2
     for i, h in enumerate(hists):
         h["id"] = i
     hin, hout = os.path.join(wd, "hist.ndjson"), os.path.join(wd, "out.ndjson")
@@ -137,13 +161,13 @@ def run(tier):
         o = outs[hid]
         evt = badh[hid][0]
         v.violation("%d histories, e.g. ext %s skip %d steps %s: at the %s the log departs from the specification: %s" % (
-            len(ids), o["ext"], o["skip"], [s["step"].get("op", s["step"].get("ev")) + (":%d" % s["step"]["node"] if "node" in s["step"] else "") for s in o["steps"]],
+            len(ids), o["ext"], o["skip"], [s["step"].get("op", s["step"].get("ev")) + (":%d" % s["step"]["node"] if "node" in s["step"] else "") + ("+mid:" + s["step"]["mid"]["ev"] if "mid" in s["step"] else "") for s in o["steps"]],
             what, json.dumps(evt)[:500]), [o], key=key)
     v.add(states=sum(x[3] for x in good), evaluations=len(events), distinct_nontrivial=len(outs),
           rule="states = distinct states of the design model over the 8 configurations; evaluation = one event (frame / server event / result) of a history replayed against Trace_Prepared; distinct = histories executed",
           design_configs=[{"ext": list(x[0]), "skip": x[1], "states": x[3]} for x in good],
           negative_control="AdoptOnReprepare = FALSE violates Faithful in %d of 8 configurations" % sum(1 for x in neg if x[2]),
-          histories_enumerated=total, histories_executed=len(outs), frames=sum(1 for e in events if e["t"] == "frame"),
+          histories_enumerated=total, histories_simulated_second_population=total2, mid_page_events=nmid, cached_handle_executions=ncach, histories_executed=len(outs), frames=sum(1 for e in events if e["t"] == "frame"),
           reprepares=sum(1 for e in events if e["t"] == "frame" and e["opcode"] == 9) - 6 * len(outs), trace_validation_states=st)
     v.sample({"ext": outs[0]["ext"], "skip": outs[0]["skip"], "steps": outs[0]["steps"][:2]})
     if not v.violations and not v.known_seen:
@@ -157,7 +181,8 @@ def run(tier):
             raise ToolError("binding self-test failed")
         v.add(binding_selftest="a history whose caller saw one altered cell is rejected")
     v.assumptions += [
-        "single caller; the server events happen between executions (concurrent callers are not modelled)",
+        "single caller; the server events happen between executions or between the two pages of a paged execution (concurrent callers are not modelled)",
+        "without the extension and with skip-metadata a second handle of the same text cannot learn of new columns once the first has re-prepared the statement: such histories use one handle only",
         "without the metadata-id extension and with skip-metadata a plain ALTER (statement stays prepared) cannot be announced by the protocol: such histories are not generated",
         "the handle keeps the PREPARED answer of an unspecified node: with mixed extension support either metadata id (or none) is accepted on the first execution"]
     return v.finish()
